@@ -525,7 +525,7 @@ impl<'ast, 'a> Visit<'ast> for Pass<'a> {
                 let mut wild = false;
                 for p in pats {
                     match p {
-                        syn::Pat::Lit(l) if matches!(l.lit, syn::Lit::ByteStr(_)) => lits.push(self.s(br(l.span())).to_string()),
+                        syn::Pat::Lit(l) if matches!(l.lit, syn::Lit::ByteStr(_) | syn::Lit::Str(_)) => lits.push(self.s(br(l.span())).to_string()),
                         syn::Pat::Wild(_) => wild = true,
                         _ => ok = false,
                     }
